@@ -158,7 +158,11 @@ func Yield() {
 
 // HookLock / HookUnlock stand in for sync.Mutex.Lock / Unlock inside ggql in
 // the instrumented native build.
-func HookLock(m *sync.Mutex) {
+func HookLock(m interface {
+	Lock()
+	Unlock()
+	TryLock() bool
+}) {
 	s := sched
 	if !s.active() {
 		m.Lock()
@@ -174,7 +178,25 @@ func HookLock(m *sync.Mutex) {
 	}
 }
 
-func HookUnlock(m *sync.Mutex) { m.Unlock() }
+func HookUnlock(m interface{ Unlock() }) { m.Unlock() }
+
+// HookRLock / HookRUnlock: the shared side of a sync.RWMutex.
+func HookRLock(m *sync.RWMutex) {
+	s := sched
+	if !s.active() {
+		m.RLock()
+		return
+	}
+	s.point()
+	for !m.TryRLock() {
+		if s.pos >= len(s.decisions) {
+			panic("all goroutines are asleep - deadlock! (the replayed schedule ends with this goroutine blocked on a mutex)")
+		}
+		s.point()
+	}
+}
+
+func HookRUnlock(m *sync.RWMutex) { m.RUnlock() }
 
 // Preemptions bounds the number of preemptive context switches per explored
 // schedule for the rest of the harness (engine only; the tier's own bound
